@@ -115,7 +115,9 @@ Record nfilter := mkNF { f_w : nat; f_ar : list (list Z); f_keys : Z; f_inv : bo
 (* PtnFilterType *)
 Record tfilter := mkTF { t_w : nat; t_ar : list (list ntype); t_inv : bool }.
 
-(* numpy broadcasting of an (r, w) array against a length-[size] vector: w = size, or w = 1 *)
+(* numpy broadcasting of an (r, w) array against a length-[size] vector: w = size, or w = 1.
+   (A length-1 vector, i.e. size = 1, also broadcasts against any w; size 1 is outside the property's
+   sizes 2..4 and that case is not modelled - the generator does not produce it.) *)
 Definition bcast_ok (w size : nat) : bool := (w =? size)%nat || (w =? 1)%nat.
 Definition bcast_row (size : nat) (row : list Z) : list Z :=
   if (length row =? size)%nat then row else repeat (hd 0 row) size.
